@@ -107,7 +107,9 @@ unsafe fn do_op(db: *mut rodbus_ffi::Database, op: Op) -> (bool, Option<u16>) {
 
 fn gen_op(rng: &mut Rng) -> Op {
     let t = *rng.pick(&TYPES);
-    let i = rng.below(6) as u16;
+    // six neighbouring indices (so that reads span present and absent points) and the two ends of
+    // the index space
+    let i = *rng.pick(&[0u16, 1, 2, 3, 4, 5, 0, 1, 2, 3, 4, 5, 65534, 65535]);
     let v = rng.u16();
     match rng.below(4) {
         0 => Op::Add(t, i, v),
@@ -189,6 +191,8 @@ fn sequential(rt: &Rt, seed: u64, n: u64, ev: &mut Evidence) {
     let mismatches: Arc<Mutex<Vec<String>>> = Arc::new(Mutex::new(vec![]));
     let nops0 = 5 + rng.usize_below(40);
     let ops0: Vec<Op> = (0..nops0).map(|_| gen_op(&mut rng)).collect();
+    let seen: Arc<Mutex<std::collections::BTreeSet<String>>> = Arc::new(Mutex::new(Default::default()));
+    let seen2 = seen.clone();
     let (m2, mm2, ops2) = (model.clone(), mismatches.clone(), ops0.clone());
     let Some(srv) = start_server(
         rt,
@@ -198,6 +202,7 @@ fn sequential(rt: &Rt, seed: u64, n: u64, ev: &mut Evidence) {
                 let want = m.apply(*op);
                 let got = unsafe { do_op(db, *op) };
                 let want = (want.0, want.1.map(|v| if let Op::Get(t, _) = op { norm(*t, v) } else { v }));
+                seen2.lock().unwrap().insert(format!("op|{}|{}", format!("{op:?}").split(',').next().unwrap_or("").replace('(', "|"), got.0));
                 if got != want {
                     mm2.lock().unwrap().push(format!("configure: {op:?} returned {got:?}, model says {want:?}"));
                 }
@@ -221,12 +226,14 @@ fn sequential(rt: &Rt, seed: u64, n: u64, ev: &mut Evidence) {
         let nops = 1 + rng.usize_below(30);
         let ops: Vec<Op> = (0..nops).map(|_| gen_op(&mut rng)).collect();
         let (m2, mm2, ops2) = (model.clone(), mismatches.clone(), ops.clone());
+        let seen2 = seen.clone();
         let (dbc, cb) = db_callback_with(move |db| {
             let mut m = m2.lock().unwrap();
             for op in &ops2 {
                 let want = m.apply(*op);
                 let got = unsafe { do_op(db, *op) };
                 let want = (want.0, want.1.map(|v| if let Op::Get(t, _) = op { norm(*t, v) } else { v }));
+                seen2.lock().unwrap().insert(format!("op|{}|{}", format!("{op:?}").split(',').next().unwrap_or("").replace('(', "|"), got.0));
                 if got != want {
                     mm2.lock().unwrap().push(format!("transaction: {op:?} returned {got:?}, model says {want:?}"));
                 }
@@ -244,8 +251,7 @@ fn sequential(rt: &Rt, seed: u64, n: u64, ev: &mut Evidence) {
         // reads over the wire: every type, windows over the index set
         if let Some(s) = sock.as_mut() {
             for (t, fc) in [(Ty::Coil, 1u8), (Ty::Discrete, 2), (Ty::Holding, 3), (Ty::Input, 4)] {
-                let start = rng.below(6) as u16;
-                let count = 1 + rng.below(3) as u16;
+                let (start, count) = if rng.chance(1, 6) { *rng.pick(&[(65534u16, 2u16), (65535, 1), (65534, 1)]) } else { (rng.below(6) as u16, 1 + rng.below(3) as u16) };
                 tx = tx.wrapping_add(1);
                 let Some(pdu) = read_pdu(s, tx, 1, fc, start, count) else {
                     mismatches.lock().unwrap().push("no reply to a read".into());
@@ -289,6 +295,9 @@ fn sequential(rt: &Rt, seed: u64, n: u64, ev: &mut Evidence) {
     unsafe { ffi::rodbus_server_destroy(srv.server) };
     ev.eval();
     ev.class("sequential|model_comparison");
+    for c in seen.lock().unwrap().iter() {
+        ev.class(c.clone());
+    }
     for m in mismatches.lock().unwrap().iter() {
         let kind = m.split(':').next().unwrap_or("?").to_string();
         let opk = m.split_whitespace().nth(1).map(|s| s.split('(').next().unwrap_or("").to_string()).unwrap_or_default();
@@ -350,7 +359,7 @@ fn stress(rt: &Rt, args: &Args, ev: &mut Evidence) {
             })
         })
         .collect();
-    let reads_goal = args.tier.pick(12_000u64, 1_000_000);
+    let reads_goal = args.tier.pick(40_000u64, 1_000_000);
     let reads = Arc::new(AtomicU64::new(0));
     let overlaps = Arc::new(AtomicU64::new(0));
     let torn: Arc<Mutex<Vec<String>>> = Arc::new(Mutex::new(vec![]));
@@ -419,7 +428,7 @@ pub fn run(args: &Args) -> i32 {
     let started = Instant::now();
     let rt = runtime(4);
     let mut ev = Evidence::new();
-    let seqs = args.tier.pick(150u64, 5000);
+    let seqs = args.tier.pick(600u64, 5000);
     for n in 0..seqs {
         sequential(&rt, args.seed, n, &mut ev);
     }
@@ -438,13 +447,13 @@ pub fn run(args: &Args) -> i32 {
         ],
         exhaustive: None,
         floors: vec![
-            ("database_ops".into(), args.tier.pick(5_000, 200_000)),
-            ("wire_reads".into(), args.tier.pick(1_500, 50_000)),
-            ("reads_touching_absent_points".into(), args.tier.pick(300, 10_000)),
-            ("stress_reads".into(), args.tier.pick(10_000, 500_000)),
-            ("reads_overlapping_an_open_transaction".into(), args.tier.pick(500, 20_000)),
+            ("database_ops".into(), args.tier.pick(20_000, 200_000)),
+            ("wire_reads".into(), args.tier.pick(6_000, 50_000)),
+            ("reads_touching_absent_points".into(), args.tier.pick(1_200, 10_000)),
+            ("stress_reads".into(), args.tier.pick(30_000, 500_000)),
+            ("reads_overlapping_an_open_transaction".into(), args.tier.pick(1_500, 20_000)),
         ],
-        min_classes: 2,
+        min_classes: 30,
     };
     finish(args, meta, ev, started)
 }
